@@ -132,6 +132,11 @@ Theorem C09_independent_of_csr_and_metadata : forall ipf e rs na cfg now c1 c2 v
 Proof. exact create_independent. Qed.
 Print Assumptions C09_independent_of_csr_and_metadata.
 
+(* every error kind a CertificateAuthority can report is mapped to an error status, never to OK *)
+Theorem C09_ca_error_is_error_status : forall k, grpc_code k = 3%N \/ grpc_code k = 13%N.
+Proof. exact grpc_code_is_error. Qed.
+Print Assumptions C09_ca_error_is_error_status.
+
 (* ---- never a CA, binds the CSR key *)
 
 Theorem C09_not_ca : forall ipf e rs na cfg rq now leaf n,
